@@ -103,6 +103,7 @@ class PassEquiv(object):
     def compare(self, blockB, corr, timeout_ms=60000, sanction_removed_regs=False):
         """Returns dict(status=proved|refuted|unknown|interface, inductive=bool, cex=..., solver_s)."""
         k = self.k
+        self.sanctioned = {}
         symB = Sym(blockB)
         Bin_names = {w.name: w for w in symB.inputs}
         Bout_names = {w.name: w for w in symB.outputs}
@@ -154,9 +155,25 @@ class PassEquiv(object):
                             problems=['registers %s have no counterpart in the result' % removed])
             # sanctioned difference (C04): an eliminated register starts out holding the
             # constant its next-value computes
-            for an in removed:
-                r = self.A_regw[an]
-                pre.append(self.A_st0['regs'][r] == self.A_states[1]['regs'][r])
+            # constant c (the register is unobservable dead logic otherwise and needs no constraint)
+            # (cascades: a register fed by an eliminated register is constant given the others)
+            changed = True
+            while changed:
+                changed = False
+                for an in removed:
+                    if an in self.sanctioned:
+                        continue
+                    r = self.A_regw[an]
+                    nxt = self.A_states[1]['regs'][r]
+                    r0, m0, _ = solve(list(pre), 5000)
+                    if m0 is None:
+                        continue
+                    c = m0.eval(nxt, model_completion=True)
+                    r1, _, _ = solve(pre + [nxt != c], timeout_ms)
+                    if r1 == z3.unsat:
+                        pre.append(self.A_st0['regs'][r] == c)
+                        self.sanctioned[an] = c.as_long()
+                        changed = True
         B_mems0 = {}
         for m in symB.mems:
             if isinstance(m, RomBlock):
@@ -181,7 +198,8 @@ class PassEquiv(object):
                 bt = _pieces_term(corr['out'][an], lambda nm: outB[nm], aw)
                 diffs.append(self.A_vals[t][an] != bt)
         r, m, dt = solve(pre + [z3.Or(*diffs)] if diffs else [z3.BoolVal(False)], timeout_ms)
-        res = dict(solver_s=dt, removed_regs=removed, free_result_regs=free_B)
+        res = dict(solver_s=dt, removed_regs=removed, free_result_regs=free_B,
+                   sanctioned=getattr(self, 'sanctioned', {}))
         if r == z3.sat:
             cex = dict(
                 steps=[{n: model_int(m, t) for n, t in self.A_in[t_].items()} for t_ in range(k)],
@@ -218,13 +236,12 @@ class PassEquiv(object):
             am = self.A_mem[an]
             if am in stA1['mems'] and bm in stB1['mems']:
                 ind.append(stA1['mems'][am] != stB1['mems'][bm])
-        for an in removed:
-            r_ = self.A_regw[an]
-            ind.append(stA1['regs'][r_] != self.A_states[2]['regs'][r_] if k >= 2 else z3.BoolVal(True))
         # started from reset: each side takes its own reset values (None -> default 0)
         def _rv(r):
             return z3.BitVecVal((r.reset_value or 0) % (2 ** r.bitwidth), r.bitwidth)
-        stA = dict(regs={r: _rv(r) for r in self.symA.regs}, mems=dict(self.A_st0['mems']))
+        stA = dict(regs={r: (z3.BitVecVal(self.sanctioned[r.name], r.bitwidth)
+                             if r.name in getattr(self, 'sanctioned', {}) else _rv(r))
+                         for r in self.symA.regs}, mems=dict(self.A_st0['mems']))
         stBr = dict(regs={r: _rv(r) for r in symB.regs}, mems=B_mems0)
         rdiffs = []
         for t in range(k):
@@ -243,7 +260,8 @@ class PassEquiv(object):
             res['solver_s'] += dt3
             if r3 == z3.sat:
                 cex = dict(steps=[{n: model_int(m3, t) for n, t in self.A_in[t_].items()}
-                                  for t_ in range(k)], regs={}, mems={}, regsB={}, from_reset=True)
+                                  for t_ in range(k)], regs=dict(getattr(self, 'sanctioned', {})),
+                           mems={}, regsB={}, from_reset=True)
                 for mem, arr in self.A_st0['mems'].items():
                     if mem.addrwidth <= 8:
                         cex['mems'][mem.name] = {a: model_int(m3, z3.Select(arr, z3.BitVecVal(a, mem.addrwidth)))
